@@ -147,7 +147,7 @@ func genConsts(r *Repo) (string, error) {
 	// commonVerbs and regEnLetter
 	var verbs []string
 	regex := ""
-	for _, d := range r.Files["fox.go"].Decls {
+	for _, d := range r.File("fox.go").Decls {
 		gd, ok := d.(*ast.GenDecl)
 		if !ok || gd.Tok != token.VAR {
 			continue
